@@ -272,7 +272,7 @@ func init() {
 		wireAssumptions(r)
 	})
 	register("C15", "Lua dissector, decided part: the dissector emitters depend on the list/string prefix types, the scalar type and the byte order for every cell; every emission that takes a size from a source (fixed length, scalar table Size, prefix table Size) takes the range and the advance from the same source; the scalar table agrees with the other languages. "+
-		"NOT decided (the heart of C15): whether the running offset is threaded through nested dissector calls, loops and match branches, and whether every helper is defined before it is called - these are dataflow properties of the emitted Lua program.", func(w *World, r *Report) {
+		"Also decided: per-packet `local function` helpers are emitted dependencies first (or declared ahead), a search for the match key considers every match field, 'already emitted' sets are keyed by the packet's name, emitted brackets balance. NOT decided (the heart of C15): whether the running offset is threaded through nested dissector calls, loops and match branches - a dataflow property of the emitted Lua program.", func(w *World, r *Report) {
 		wc := buildWire(w, r)
 		reportCells(r, "C15/lua-sensitivity", wc.cells["lua/dec"])
 		r.floor("C15/lua-sensitivity", 8)
